@@ -1057,6 +1057,25 @@ func (g *Gen) builtin(in *ssa.Call, b *ssa.Builtin, common *ssa.CallCommon, args
 	case "copy":
 		g.copyCall(in, common, args, st, reach, pos)
 	case "delete":
+		// "opt: max-deletes=m:1": at most that many delete statements on the local map m in this function
+		// (each one beyond the limit is an obligation that cannot be discharged)
+		if md := g.con.Opts["max-deletes"]; md != "" {
+			if ld, ok := common.Args[0].(*ssa.UnOp); ok {
+				if a, ok := ld.X.(*ssa.Alloc); ok {
+					for _, ent := range strings.Split(md, ",") {
+						name, lim, _ := strings.Cut(strings.TrimSpace(ent), ":")
+						if name == a.Comment {
+							limit, _ := strconv.Atoi(lim)
+							k := "maxdel." + name
+							g.safeCtr[k]++
+							if g.safeCtr[k] > limit {
+								g.addObl("max-deletes", fmt.Sprintf("%s.%d", name, g.safeCtr[k]), implies(reach, "false"), pos, fmt.Sprintf("one more delete from the local map %s than the %d this function may contain", name, limit), nil)
+							}
+						}
+					}
+				}
+			}
+		}
 		// "opt: grow-only=f1,f2": the maps held in these struct fields only ever gain keys in this function
 		if gl := g.con.Opts["grow-only"]; gl != "" {
 			if f := g.mapFieldOf(common.Args[0], 0); f != "" && inList(gl, f) {
